@@ -129,9 +129,11 @@ class Unit:
 def run_path(K, loader, decisions, opts):
     """Execute one path.  returns (ctx, symctx, call, outcome|None, note)"""
     ctx = PathCtx(decisions, timeout_ms=opts.get('branch_timeout_ms', 3000))
+    ctx.eager_timeout_ms = opts.get('timeout_ms', 10000)
     c = SymCtx(ctx, loader)
     it = Interp(loader, ctx, loop_specs=getattr(K, 'loops', None), call_hooks=build_hooks(K, loader), max_unroll=opts.get('max_unroll', 4096))
     c.it = it
+    it.merge_ifs = getattr(K, 'merge_ifs', True)
     out = None
     call = None
     try:
@@ -222,9 +224,11 @@ def verify_unit(unit, repo, opts):
             # obligations recorded during execution (loop invariants, safety, pre@call)
             for oid, pc, goal, meta in ctx.obligations:
                 vcs.append(('%s/%s' % (pfx, oid), pc, goal, meta))
+            ctx.pc_at_end = None
             if out is not None:
                 a = c.a
                 pc = list(ctx.pc)
+                ctx.pc_at_end = pc
                 if out.kind == 'return':
                     covers['return'] = True
                     posts = dict(K.post(c, a, out) or {})
@@ -257,7 +261,20 @@ def verify_unit(unit, repo, opts):
                 if smp is not None:
                     res['samples'].append(smp)
             for oid, pc, goal, meta in vcs:
-                st, be, dt, model, reason = solve(pc, goal, timeout_ms)
+                eager = meta.get('eager')
+                if pc is None and eager is not None:
+                    # discharged on the spot by the path's incremental solver
+                    res['solver_s'] += eager[1]
+                    res['vcs'].append({'oid': oid, 'status': 'unsat', 'backend': 'z3', 's': round(eager[1], 4), 'kind': meta.get('kind', '?')})
+                    continue
+                if eager is None and pc is ctx.pc_at_end:
+                    st, dt, model, reason = ctx.check_now(goal, timeout_ms)
+                    be = 'z3'
+                    if st == 'unknown':
+                        st, be, dt2, model, reason = solve(list(pc), goal, timeout_ms)
+                        dt += dt2
+                else:
+                    st, be, dt, model, reason = solve(pc, goal, timeout_ms)
                 res['solver_s'] += dt
                 rec = {'oid': oid, 'status': st, 'backend': be, 's': round(dt, 4), 'kind': meta.get('kind', '?')}
                 if st == 'sat':
